@@ -723,6 +723,18 @@ func (e *Engine) runBlock(fr *frame, b *ssa.BasicBlock, st *State) {
 				ts.conds = addCond(ts.conds, pb)
 				fs.conds = addCond(fs.conds, bitNot(pb))
 			}
+			if !ts.dead && contradictory(ts.conds) {
+				if ts == st {
+					ts = st.clone()
+				}
+				ts.dead = true
+			}
+			if !fs.dead && contradictory(fs.conds) {
+				if fs == st {
+					fs = st.clone()
+				}
+				fs.dead = true
+			}
 			fr.setOut(b, b.Succs[0], ts)
 			fr.setOut(b, b.Succs[1], fs)
 			return
@@ -997,6 +1009,14 @@ func (e *Engine) phi(fr *frame, x *ssa.Phi, st *State) Value {
 				return iv
 			}
 			if sv, ok := iv.(*SliceV); ok {
+				// rest = rest[c:] with a constant c: the offset is affine in the iteration symbol
+				if rs, isSl := step.(*ssa.Slice); isSl && rs.X == ssa.Value(x) && rs.High == nil && rs.Max == nil && sv.Off != nil {
+					if cst, isC := rs.Low.(*ssa.Const); isC {
+						if cv, okc := constOf(cst); okc {
+							return &SliceV{Buf: sv.Buf, Off: sv.Off.add(affSym(sym).scale(int64(cv)), 1), Elem: sv.Elem, ElemT: sv.ElemT}
+						}
+					}
+				}
 				// accumulators (append) and re-slicing: keep the buffer, forget offset/length
 				return &SliceV{Buf: sv.Buf, Off: nil, Elem: sv.Elem, ElemT: sv.ElemT}
 			}
